@@ -2,9 +2,11 @@ import Srctools.Model.C17IO
 import Srctools.Proofs.C17Names
 /-! # C17 — I/O proxy rewriting and `func_instance_parms` (core only) -/
 namespace C17
+variable [CharFold]
 
 /-! ## fire counts -/
 
+omit [CharFold] in
 theorem combineTimes_spec (a b : Int) :
     (b < 0 → combineTimes a b = a) ∧ (0 ≤ b → a < 0 → combineTimes a b = b) ∧
     (0 ≤ a → 0 ≤ b → combineTimes a b = min a b) := by
@@ -103,6 +105,7 @@ theorem parseIO_inputs_from_proxies (ents : List IOEnt) (k : Key2) (p : Out)
 
 /-! ## `func_instance_parms` -/
 
+omit [CharFold] in
 theorem breakSpace_noSpace (a rest : List Char) (h : ' ' ∉ a) :
     breakSpace (a ++ ' ' :: rest) = (a, some rest) := by
   induction a with
@@ -112,10 +115,12 @@ theorem breakSpace_noSpace (a rest : List Char) (h : ' ' ∉ a) :
     have hcs : ' ' ∉ cs := fun e => h (by simp [e])
     simp [breakSpace, hc, ih hcs]
 
+omit [CharFold] in
 theorem splitSpaces_succ (n : Nat) (a rest : List Char) (h : ' ' ∉ a) :
     splitSpaces (n + 1) (a ++ ' ' :: rest) = a :: splitSpaces n rest := by
   rw [splitSpaces, breakSpace_noSpace a rest h]
 
+omit [CharFold] in
 /-- `name type default…`: with `split(' ', 2)` the default is everything after the second space. -/
 theorem parseParam_three (name ty dflt : List Char) (hn : ' ' ∉ name) (ht : ' ' ∉ ty) :
     parseParam 2 (name ++ ' ' :: (ty ++ ' ' :: dflt)) = ⟨name, some ty, dflt⟩ := by
@@ -125,6 +130,7 @@ theorem parseParam_three (name ty dflt : List Char) (hn : ' ' ∉ name) (ht : ' 
 
 /-! ## supplied / unsupplied variables -/
 
+omit [CharFold] in
 theorem lookupFix_mem {t : FixTable} {k v : List Char} (h : lookupFix t k = some v) :
     k ∈ t.map (·.1) := by
   simp only [lookupFix, Option.map_eq_some_iff] at h
@@ -158,8 +164,8 @@ is replaced by the default handed to `substitute` — `''` in `collapse_one` —
 theorem substitute_unsupplied (t : FixTable) (ht : t.isEmpty = false) (d rest : List Char) (n : Nat)
     (hm : firstMatch (alternatives t) rest = none) (hid : identLen rest = n + 1) :
     substitute t d ('$' :: rest) = d ++ substitute t d (rest.drop (n + 1)) := by
-  have hnone : lookupFix t ((rest.take (n + 1)).map lowerAscii) = none := by
-    cases hl : lookupFix t ((rest.take (n + 1)).map lowerAscii) with
+  have hnone : lookupFix t ((rest.take (n + 1)).map CharFold.lw) = none := by
+    cases hl : lookupFix t ((rest.take (n + 1)).map CharFold.lw) with
     | none => rfl
     | some v =>
       exfalso
@@ -167,9 +173,9 @@ theorem substitute_unsupplied (t : FixTable) (ht : t.isEmpty = false) (d rest : 
       simp only [alternatives, ht, Bool.false_eq_true, if_false] at hm
       have hno := firstMatch_none hm _ ((mem_sortKeys t _).mpr hk)
       have hle := identLen_le rest
-      have hlen : ((rest.take (n + 1)).map lowerAscii).length = n + 1 := by
+      have hlen : ((rest.take (n + 1)).map CharFold.lw).length = n + 1 := by
         simp only [List.length_map, List.length_take]; omega
-      have : matchesCI ((rest.take (n + 1)).map lowerAscii) rest = true := by
+      have : matchesCI ((rest.take (n + 1)).map CharFold.lw) rest = true := by
         rw [matchesCI_iff]
         refine ⟨by omega, ?_⟩
         rw [hlen]
